@@ -517,9 +517,9 @@ func runFaults(run *ev.Run, i int) {
 			case !genuine:
 				fail("C02:rp-remote:faults:accepted:"+cls, "accepted a token signed by a key the provider never published", wit)
 				return false
-			case !legal && everStored[k.kid] && !inServed:
+			case !legal && everStored[k.kid]:
 				fail("C02:rp-remote:faults:accepted:withdrawn-key-after-completed-refresh",
-					fmt.Sprintf("accepted a token signed by %s although the provider no longer publishes that key and the key set has since stored a newer document (%s)", k.kid, storedBefore), wit)
+					fmt.Sprintf("accepted a token signed by %s: the provider withdrew that key and the key set has since completed the download of a newer document without it (%s), and downloaded nothing during this call", k.kid, storedBefore), wit)
 				return false
 			case !legal:
 				fail("C02:rp-remote:faults:accepted:key-of-no-downloaded-document", fmt.Sprintf("accepted a token signed by %s, a key of no document the key set has downloaded successfully", k.kid), wit)
